@@ -74,7 +74,8 @@ class UnitsEngine(Engine):
     max_ops = 40
     expected_probes = ['named_after_random', 'unseeded_reset', 'named_sweep_subsets', 'precedence_pow_before_mul',
                        'precedence_left_to_right_div', 'nested_parens', 'whitespace_variants', 'cross_epoch_compared',
-                       'style_fit_done', 'literal_with_unit', 'array_roundtrip', 'refused_reset_raised']
+                       'style_fit_done', 'literal_with_unit', 'array_roundtrip', 'refused_reset_raised', 'integer_dtype_value',
+                       'scribble_on_literal_result']
     rule = ('Each run is a history of up to 40 operations on the process-global unit tables: working-unit resets (seeded '
             'random, unseeded random through the patched random seam, SI, atomman default, named subsets of length/mass/'
             'time/energy/charge with unit names drawn from a 31-name vocabulary, refused resets) interleaved with queries: '
@@ -180,8 +181,11 @@ class UnitsEngine(Engine):
             shape = r.choice([(), (), (3,), (2, 3), (1,)])
             n = int(np.prod(shape)) if shape else 1
             vals = [r.choice([r.uniform(-1e3, 1e3), 10 ** r.uniform(-12, 12), float(r.randint(-5, 5))]) for _ in range(n)]
-            return {'op': 'roundtrip', 'expr': self._gen_expr(ctx, r.randint(0, 2)), 'shape': list(shape), 'values': vals,
-                    'as_list': r.random() < 0.3}
+            op = {'op': 'roundtrip', 'expr': self._gen_expr(ctx, r.randint(0, 2)), 'shape': list(shape), 'values': vals,
+                  'as_list': r.random() < 0.3, 'dtype': r.choice(['float', 'float', 'float', 'int'])}
+            if op['dtype'] == 'int':
+                op['values'] = [float(r.randint(-9, 99)) for _ in range(n)]
+            return op
         if k == 'parse':
             special = r.random()
             if special < 0.12:
@@ -308,14 +312,35 @@ class UnitsEngine(Engine):
             ctx.ev('skip', 'roundtrip')
             return
         x = np.array(op['values'], dtype=float).reshape(op['shape'])
-        given = x.tolist() if op['as_list'] else (x if op['shape'] else float(x))
+        dt = op.get('dtype', 'float')
+        rt_ulp = RT_ULP
+        if dt == 'int' and np.all(x == np.round(x)):
+            # whole numbers handed over with an integer dtype (np.arange, counts, Miller indices times a spacing ...)
+            xi = x.astype(int)
+            given = xi.tolist() if op['as_list'] else (xi if op['shape'] else int(xi))
+            ctx.probe('integer_dtype_value')
+        elif dt == 'float32' and op['shape'] and not op['as_list']:
+            x = x.astype(np.float32).astype(float)
+            given = x.astype(np.float32)
+            rt_ulp = None                   # single precision in, single precision tolerance
+        else:
+            given = x.tolist() if op['as_list'] else (x if op['shape'] else float(x))
+        keep = np.array(given, copy=True) if isinstance(given, np.ndarray) else None
         w = ctx.must('C09.K1', uc.set_in_units, given, expr, klass='set_in_units')
+        if np.asarray(w).shape == x.shape and np.all(np.isfinite(x)):
+            wa = np.asarray(w, dtype=float)
+            if not np.all(np.abs(wa - x * want) <= (1e-6 if rt_ulp is None else 1e-12 + 1.5 * s) * np.abs(x * want)):
+                raise Violation('C09.K1', {'what': 'set_in_units(x, u) is not x times the unit', 'x': x, 'got': wa, 'expr': expr,
+                                           'dtype_in': dt}, klass='set/value/' + dt)
         back = ctx.must('C09.K1', uc.get_in_units, w, expr, klass='get_in_units')
         back = np.asarray(back, dtype=float)
+        if keep is not None and not np.array_equal(keep, given):
+            raise Violation('C09.K1', {'what': 'the caller\'s array was changed by the conversion', 'before': keep, 'after': np.asarray(given)},
+                            klass='rt/operand')
         if back.shape != x.shape:
             raise Violation('C09.K1', {'what': 'round trip changed the shape', 'got': list(back.shape), 'want': list(x.shape)}, klass='rt/shape')
         for a, b in zip(back.reshape(-1), x.reshape(-1)):
-            if ulps(a, b) > RT_ULP:
+            if (rt_ulp is None and abs(a - b) > 1e-6 * abs(b)) or (rt_ulp is not None and ulps(a, b) > rt_ulp):
                 raise Violation('C09.K1', {'what': 'get(set(x,u),u) != x', 'x': float(b), 'got': float(a), 'expr': expr, 'ulps': ulps(a, b)},
                                 klass='rt/value')
         if op['shape']:
@@ -396,6 +421,12 @@ class UnitsEngine(Engine):
             ctx.probe('literal_with_unit')
         else:
             w, s = 1.0, 0.0
+        first = ctx.must('C09.K2', uc.set_literal, term, klass='set_literal', detail={'term': term})
+        if isinstance(first, np.ndarray) and first.ndim and first.flags.writeable:
+            # the caller owns what it was handed: overwriting it must not change what the same literal means next time
+            first[...] = 12345.678
+            ctx.fault('scribble_on_literal_result')
+            ctx.probe('scribble_on_literal_result')
         got = np.asarray(ctx.must('C09.K2', uc.set_literal, term, klass='set_literal', detail={'term': term}), dtype=float)
         want = x * w
         if got.shape != want.shape or not np.all(np.abs(got - want) <= (1e-12 + 1.5 * s) * np.abs(want)):
